@@ -303,7 +303,7 @@ static const char *F9_RT[] = {"i64", "i32", "u8", "i64, d"};                    
 static const int F9_PAD[] = {0, 40, 60, 190, 215};                              /* callee size padding around the two inlining thresholds */
 typedef struct { int al, rets, pt, rt, kind, pad;  int inl, loop, resmem, own, sites; } f9cfg;
 static int f9_npad (int th) { return th ? 5 : 1; }
-static uint64_t f9_count (int th) { return 5ull * 3 * 6 * 4 * 3 * f9_npad (th) * 2 * 2 * 2 * 3 * 2; }
+static uint64_t f9_count (int th) { return 6ull * 3 * 6 * 4 * 3 * f9_npad (th) * 2 * 2 * 2 * 3 * 2; }
 static f9cfg f9_decode (uint64_t idx) {
   extern int progfam_thorough; f9cfg c;
   c.sites = idx % 2; idx /= 2; c.own = idx % 3; idx /= 3; c.resmem = idx % 2; idx /= 2; c.loop = idx % 2; idx /= 2; c.inl = idx % 2; idx /= 2;
@@ -324,6 +324,8 @@ static void f9_render (uint64_t idx) {
   if (c.al == 2) S ("GA:\n  alloca al, 32\n");
   if (c.al == 3) S ("  and u, n, 31\n  add u, u, 8\n  alloca al, u\n");
   if (c.al == 4) S ("  alloca al, 8\n  alloca al2, 24\n  mov i64:16(al2), 5\n");
+  if (c.al == 5) /* a fresh block per iteration of a loop, all blocks live together (linked list), then walked */
+    S ("  mov al2, 0\n  mov u, 3\nGL:\n  alloca al, 16\n  mov i64:(al), u\n  mov i64:8(al), al2\n  mov al2, al\n  sub u, u, 1\n  bgt GL, u, 0\n  mov w, 0\nGW:\n  add w, w, i64:(al2)\n  mov al2, i64:8(al2)\n  bne GW, al2, 0\n  add t, t, w\n");
   if (c.al) S ("  mov i64:(al), t\n");
   for (int i = 0; i < F9_PAD[c.pad]; i++) S ("  add w, t, %d\n", i);
   if (c.kind == 1) S ("  call p_e1, e1, t, t\n");
@@ -362,32 +364,64 @@ static pinput f9_input (uint64_t idx, int i) {
 }
 
 /* =============================== F10: link-time branch rewrites =============================== */
-static const char *F10_CC[] = {"beq", "bne", "blt", "bge", "ublt", "ubge", "bles", "ubgts"};
+static const char *F10_CC[] = {"beq", "beqs", "bne", "bnes", "blt", "blts", "ublt", "ublts", "ble", "bles", "uble", "ubles", "bgt", "bgts", "ubgt", "ubgts", "bge", "bges", "ubge", "ubges",
+                                "dbeq", "dbne", "dblt", "dble", "dbgt", "dbge", "fbeq", "fbne", "fblt", "fble", "fbgt", "fbge", "ldbeq", "ldbne", "ldblt", "ldble", "ldbgt", "ldbge", "bt", "bts", "bf", "bfs"};
+#define NF10CC 42
 static const int F10_CHAIN[] = {1, 2, 31, 32, 33, 40};
-static uint64_t f10_count (int th) { return 8 * 4 + 12 + 6 * 3 + 4; }
+static uint64_t f10_count (int th) { return NF10CC * 4 + 12 + 6 * 3 + 4; }
 static void f10_render (uint64_t idx) {
-  begin_func (""); S ("  mov r, 5\n");
-  if (idx < 32) { int cc = idx % 8, v = (int) (idx / 8);
+  begin_func ("f:f1, f:f2, ld:l1, ld:l2"); S ("  mov r, 5\n");
+  if (idx < NF10CC * 4) { int cc = idx % NF10CC, v = (int) (idx / NF10CC); char br[64]; const char *n = F10_CC[cc];
+    if (n[0] == 'd') snprintf (br, sizeof br, "%s L1, x, y", n);
+    else if (n[0] == 'f') { S ("  d2f f1, x\n  d2f f2, y\n"); snprintf (br, sizeof br, "%s L1, f1, f2", n); }
+    else if (n[0] == 'l') { S ("  d2ld l1, x\n  d2ld l2, y\n"); snprintf (br, sizeof br, "%s L1, l1, l2", n); }
+    else if (n[1] == 't' || n[1] == 'f') snprintf (br, sizeof br, "%s L1, a", n);
+    else snprintf (br, sizeof br, "%s L1, a, b", n);
     switch (v) {
-    case 0: S ("  %s L1, a, b\nL1:\n  add r, r, 1\n  ret r\n", F10_CC[cc]); break;                               /* branch to the next insn */
-    case 1: S ("  %s L1, a, b\nLU:\nL1:\n  add r, r, 1\n  ret r\n", F10_CC[cc]); break;                          /* ... through an unused label */
-    case 2: S ("  %s L1, a, b\n  jmp L2\nL1:\n  add r, r, 1\nL2:\n  ret r\n", F10_CC[cc]); break;                 /* bcc L1; jmp L2; L1: */
-    default: S ("  %s L1, a, b\n  jmp L2\nL2:\nL1:\n  add r, r, 1\n  ret r\n", F10_CC[cc]);                        /* bcc L1; jmp L2; L2: L1: */
+    case 0: S ("  %s\nL1:\n  add r, r, 1\n  ret r\n", br); break;                               /* branch to the next insn */
+    case 1: S ("  %s\nLU:\nL1:\n  add r, r, 1\n  ret r\n", br); break;                          /* ... through an unused label */
+    case 2: S ("  %s\n  jmp L2\nL1:\n  add r, r, 1\nL2:\n  ret r\n", br); break;                 /* bcc L1; jmp L2; L1: */
+    default: S ("  %s\n  jmp L2\nL2:\nL1:\n  add r, r, 1\n  ret r\n", br);                        /* bcc L1; jmp L2; L2: L1: */
     } }
-  else if (idx < 44) { static const char *B[] = {"bt", "bf", "bts", "bfs"}; static const char *V[] = {"0", "1", "4294967296"}; int i = (int) idx - 32;
+  else if (idx < NF10CC * 4 + 12) { static const char *B[] = {"bt", "bf", "bts", "bfs"}; static const char *V[] = {"0", "1", "4294967296"}; int i = (int) idx - NF10CC * 4;
     S ("  %s L1, %s\n  add r, r, 10\nL1:\n  add r, r, 1\n  ret r\n", B[i % 4], V[i / 4]); }
-  else if (idx < 62) { int i = (int) idx - 44, n = F10_CHAIN[i % 6], v = i / 6;
+  else if (idx < NF10CC * 4 + 30) { int i = (int) idx - NF10CC * 4 - 12, n = F10_CHAIN[i % 6], v = i / 6;
     if (v == 0) S ("  jmp C0\n"); else if (v == 1) S ("  bne C0, a, b\n  ret r\n"); else S ("  and r1, a, 1\n  switch r1, C0, C%d\n", n - 1);
     S ("CE:\n  add r, r, 100\n  ret r\n");
     for (int k = 0; k < n; k++) S ("C%d:\n  jmp %s%.0d\n", k, k + 1 < n ? "C" : "CE", k + 1 < n ? k + 1 : 0);
     /* note: "%.0d" prints nothing for 0 */ }
-  else { int i = (int) idx - 62;
+  else { int i = (int) idx - NF10CC * 4 - 30;
     if (i == 0) S ("  ret r\nD1:\n  jmp D2\nD2:\n  jmp D1\n");                               /* jump cycle in dead code */
     else if (i == 1) S ("  bne D1, a, b\n  ret r\nD1:\n  jmp D2\nD3:\n  add r, r, 7\n  ret r\nD2:\n  jmp D3\n");
     else if (i == 2) S ("  jmp D1\nD1:\n  jmp D2\nD2:\n  bne D1, a, a\n  ret r\n");
     else S ("  bt D1, a\n  bf D1, a\n  add r, r, 1000\nD1:\n  ret r\n"); }
   end_func ();
 }
+
+static int f10_ninputs (uint64_t idx) { return idx < NF10CC * 4 && (F10_CC[idx % NF10CC][0] == 'd' || F10_CC[idx % NF10CC][0] == 'f' || F10_CC[idx % NF10CC][0] == 'l') ? NGD * NGD : NGI * NGI; }
+static pinput f10_input (uint64_t idx, int i) {
+  if (f10_ninputs (idx) == NGI * NGI) return in_intgrid (idx, i);
+  pinput p = {1, 2, -1, GRID_D[i / NGD], GRID_D[i % NGD]}; return p;
+}
+/* =============================== F11: every fp comparison, value and branch form, over a grid with NaN, infinities and signed zeros =============================== */
+static const char *F11_CMP[] = {"eq", "ne", "lt", "le", "gt", "ge"};
+static uint64_t f11_count (int th) { return 6 * 2 * 3 * 4; }
+static void f11_render (uint64_t idx) {
+  int cmp = idx % 6, br = idx / 6 % 2, t = idx / 12 % 3, shape = (int) (idx / 36);
+  static const char *PFX[] = {"f", "d", "ld"}; const char *P = PFX[t];
+  begin_func ("f:f1, f:f2, ld:l1, ld:l2, d:d1, d:d2");
+  const char *v1 = t == 0 ? "f1" : t == 1 ? "d1" : "l1", *v2 = t == 0 ? "f2" : t == 1 ? "d2" : "l2";
+  if (t == 0) S ("  d2f f1, x\n  d2f f2, y\n"); else if (t == 1) S ("  dmov d1, x\n  dmov d2, y\n"); else S ("  d2ld l1, x\n  d2ld l2, y\n");
+  const char *k = t == 0 ? "1.0f" : t == 1 ? "1.0" : "1.0L"; char mem[32]; snprintf (mem, sizeof mem, "%s:32(m)", P);
+  const char *o1 = v1, *o2 = shape == 0 ? v2 : shape == 1 ? k : shape == 2 ? v1 : mem;
+  if (shape == 3) S ("  %smov %s, %s\n", P, mem, v2);
+  S ("  mov r, 3\n");
+  if (br) S ("  %sb%s L1, %s, %s\n  add r, r, 10\nL1:\n", P, F11_CMP[cmp], o1, o2);
+  else S ("  %s%s r0, %s, %s\n  add r, r, r0\n  %s%s r0, %s, %s\n  mul r0, r0, 4\n  add r, r, r0\n", P, F11_CMP[cmp], o1, o2, P, F11_CMP[cmp], o2, o1);
+  S ("  ret r\n"); end_func ();
+}
+static int f11_ninputs (uint64_t idx) { return NGD * NGD; }
+static pinput f11_input (uint64_t idx, int i) { pinput p = {1, 2, -1, GRID_D[i / NGD], GRID_D[i % NGD]}; return p; }
 
 int progfam_thorough;
 static const family FAMILIES[] = {
@@ -405,7 +439,8 @@ static const family FAMILIES[] = {
   {"F6-pressure", f6_count, f6_render, f6_ninputs, f6_input},
   {"F8-loops-memory", f8_count, f8_render, f8_ninputs, f8_input},
   {"F9-inlining", f9_count, f9_render, f9_ninputs, f9_input},
-  {"F10-branch-rewrites", f10_count, f10_render, in_intgrid_n, in_intgrid},
+  {"F10-branch-rewrites", f10_count, f10_render, f10_ninputs, f10_input},
+  {"F11-fp-compares", f11_count, f11_render, f11_ninputs, f11_input},
 };
 #define NFAM ((int) (sizeof (FAMILIES) / sizeof (FAMILIES[0])))
 #endif
